@@ -24,6 +24,7 @@ type SpecEnv struct {
 	results []SV
 	loopEntry *State // set while a loop invariant is evaluated: the state on entry to that loop (builtin loopentry(E))
 	visitedKey, visitedSort string // set while an invariant of a map-range loop is evaluated: its visited-set component (ext_maprange.go)
+	fvAddr map[string]SV // call sites of closure contracts: addresses of the captured variables (so that `modifies v` can name one)
 }
 
 type specErr struct{ msg string }
@@ -463,6 +464,15 @@ func (e *SpecEnv) evalAddr(x Expr) (string, types.Type, bool) {
 				return a, t, true
 			}
 		}
+		// a captured variable of a closure is an lvalue: its cell is the binding (ext_kviter.go)
+		if a, ok := e.fvAddr[x.Name]; ok {
+			return a.t, a.typ, true
+		}
+		if e.fr != nil {
+			if a, t, ok := e.fr.freeVarAddr(x.Name); ok {
+				return a, t, true
+			}
+		}
 		return "", nil, false
 	case *EUnary:
 		if x.Op == "*" {
@@ -875,6 +885,10 @@ func (e *SpecEnv) evalCall(x *ECall) SV {
 				a, b := e.eval(x.Args[0]), e.eval(x.Args[1])
 				fc.eng.declareUF(fc, "bcat", []string{"Int", "Int"}, "Int")
 				return SV{t: app("bcat", a.t, b.t), typ: mathInt}
+			case "strkey":
+				return e.evalStrKey(x) // ext_kviter.go
+			case "kvsub":
+				return e.evalKvSub(x) // ext_kviter.go
 			case "kvkey", "kvval":
 				// T-KV: kvkey(s) / kvval(s): abstract identity of the byte string held by s (slice or array), used as key /
 				// value of a key-value store. Uninterpreted function of (block, offset, length) exactly like bigbytes, i.e. any
